@@ -50,7 +50,7 @@ def check(run):
         if rc != 0:
             broken.append("harness c19 failed rc=%s: %s" % (rc, err[-400:]))
         else:
-            recs = [json.loads(l) for l in out.splitlines() if l.strip()]
+            recs = [json.loads(l) for l in out.split("\n") if l.strip()]
     try:
         table = json.load(open(os.path.join(vlib.COQ, "gen", "constants_table.json")))
     except Exception:
